@@ -112,11 +112,16 @@ def _rules(ck, prog, cfg):
                  f.where(bad_ops[0][1]) if bad_ops else None, detail="fields fed to a sequential hasher")
     # from_digests must feed both key_hash and value_hash of each element to the same hasher
     hf = []
-    for b, t in fd.calls():
-        if re.match(r"^<u64 as std::hash::Hash>::hash::<", t.get("fnargs") or ""):
-            s = src_of_operand(fd, t["args"][0], through_calls=TRANSPARENT)
-            h = src_of_operand(fd, t["args"][1], through_calls=TRANSPARENT)
-            hf.append((s.fields[-1] if s.fields else "?", h.path()))
+    for g in [fd] + prog.children(fd):       # the loop body may be a `for_each` closure that captured the hasher
+        for b, t in g.calls():
+            if re.match(r"^<u64 as std::hash::Hash>::hash::<", t.get("fnargs") or ""):
+                s = src_of_operand(g, t["args"][0], through_calls=TRANSPARENT)
+                h = src_of_operand(g, t["args"][1], through_calls=TRANSPARENT)
+                hp = h.path()
+                if g is not fd:
+                    hp = re.sub(r"^(self__|_1\.?)", "", hp) or hp
+                    hp = "captured:" + (h.root or hp)
+                hf.append((s.fields[-1] if s.fields else "?", hp))
     fields = {x for x, _ in hf}
     hashers = {h for _, h in hf}
     ck.check({"key_hash", "value_hash"} <= fields and len(hashers) == 1, "R18.5", "from_digests:binds-key-and-value" + _tag(cfg),
